@@ -48,7 +48,9 @@ func akFields(impl string) defMap {
 	return allKindsFields()
 }
 
-var ak2Fields = defMap{"s": {Kind: "attr", K: "string"}, "back": {Kind: "rel", To1: true, TT: "ak"}}
+// ak2 also has a two-way relationship with itself (up <-> down)
+var ak2Fields = defMap{"s": {Kind: "attr", K: "string"}, "back": {Kind: "rel", To1: true, TT: "ak"},
+	"up": {Kind: "rel", To1: true, TT: "ak2", TN: "down"}, "down": {Kind: "rel", To1: false, TT: "ak2", TN: "up"}}
 
 // ak3 has attributes only (no relationship at all)
 var ak3Fields = defMap{"t": {Kind: "attr", K: "string"}, "u": {Kind: "attr", K: "uint", Null: true}}
@@ -1347,6 +1349,15 @@ func codecOtherModes(mode string, rng *rand.Rand, stt *stats, w *evWriter, n int
 			stt.distinct(renderPayload(c))
 			w.Emit(ev, c)
 		}
+		for _, impl := range []string{"soft", "wrap"} {
+			for _, ud := range [][2]bool{{true, true}, {true, false}, {false, true}, {false, false}} {
+				c := pairCase{Fam: "codec", Mode: "selfpair", Impl: impl, Up: ud[0], Down: ud[1]}
+				ev := runSelfPair(c)
+				stt.Calls += 2
+				stt.class("selfpair:" + ev.Part)
+				w.Emit(ev, c)
+			}
+		}
 		// arrays of resources of several types (C06 speaks of every accepted resource payload, also
 		// inside a collection): every member keeps its own type and values
 		colTypes := [][]string{{"ak2", "ak2", "ak3", "ak2"}, {"ak3", "ak2"}, {"ak2", "ak3", "ak3", "ak2", "ak"}, {"ak"},
@@ -1468,8 +1479,73 @@ func runColPayload(c colCase) colEvent {
 	return ev
 }
 
+// ---- C13: the two sides of a relationship of a type with itself, in one payload ------------
+
+type pairCase struct {
+	Fam  string `json:"fam"`
+	Mode string `json:"mode"`
+	Impl string `json:"impl"`
+	Up   bool   `json:"up"`   // the payload carries data for "up"
+	Down bool   `json:"down"` // ... for "down"
+}
+
+type pairEvent struct {
+	Ev     string   `json:"ev"`
+	Impl   string   `json:"impl"`
+	Out    string   `json:"out"`
+	Part   string   `json:"part"`
+	Want   []string `json:"want"`  // the relationships that carry data
+	PRels  []string `json:"prels"` // Rels() of the partial result
+	ValsOK bool     `json:"vals_ok"`
+}
+
+func runSelfPair(c pairCase) pairEvent {
+	ev := pairEvent{Ev: "selfpair", Impl: c.Impl, Want: []string{}, PRels: []string{}}
+	schema := akSchema(c.Impl)
+	var rels []string
+	if c.Down {
+		rels = append(rels, `"down":{"data":[{"type":"ak2","id":"k2"},{"type":"ak2","id":"k1"}]}`)
+		ev.Want = append(ev.Want, "down")
+	}
+	if c.Up {
+		rels = append(rels, `"up":{"data":{"type":"ak2","id":"p"}}`)
+		ev.Want = append(ev.Want, "up")
+	}
+	payload := []byte(`{"type":"ak2","id":"s1","attributes":{"s":"v"},"relationships":{` + strings.Join(rels, ",") + `}}`)
+	var full jsonapi.Resource
+	var part *jsonapi.SoftResource
+	var ferr, perr error
+	if p, _ := catch(func() { full, ferr = jsonapi.UnmarshalResource(payload, schema) }); p {
+		ev.Out = "panic"
+	} else if ferr != nil {
+		ev.Out = "reject"
+	} else {
+		ev.Out = "accept"
+	}
+	if p, _ := catch(func() { part, perr = jsonapi.UnmarshalPartialResource(payload, schema) }); p {
+		ev.Part = "panic"
+	} else if perr != nil {
+		ev.Part = "reject"
+	} else {
+		ev.Part = "accept"
+		ev.PRels = sortedKeys(part.Rels())
+		ev.ValsOK = part.Get("s") == "v"
+		if c.Up {
+			ev.ValsOK = ev.ValsOK && part.Get("up") == "p" && (ev.Out != "accept" || full.Get("up") == "p")
+		}
+		if c.Down {
+			ev.ValsOK = ev.ValsOK && reflect.DeepEqual(sortedIDs(idsOf(part.Get("down"))), []string{"k1", "k2"})
+		}
+	}
+	return ev
+}
+
 func codecRunOther(mode string, raw json.RawMessage) any {
 	switch mode {
+	case "selfpair":
+		var c pairCase
+		must(json.Unmarshal(raw, &c))
+		return runSelfPair(c)
 	case "colpayload":
 		var c colCase
 		must(json.Unmarshal(raw, &c))
